@@ -52,12 +52,16 @@ inductive Step where
   | continue (l : Loop)
   | stop (l : Loop)
 
+/-- `quantizer = in_force_quantizer as i8 + d_quantizer.unwrap_or(0); in_force_quantizer = quantizer.clamp(1, 31) as u8` -/
+def updateQuant (q : Nat) (dq : Option Int) : Out Nat :=
+  let qi : Int := (q : Int) + dq.getD 0
+  if q > 127 ∨ qi < -128 ∨ qi > 127 then .panic "attempt to add with overflow (i8 quantizer)" else
+  .ok (if qi < 1 then 1 else if qi > 31 then 31 else qi.toNat)
+
 /-- one coded macroblock: quantizer update, vector reconstruction, six blocks -/
 def codedMb (d : DecOpts) (hdr : PicHdr) (dims : Option (Nat × Nat)) (running : Nat) (mbPerLine : Nat) (l : Loop)
     (t : MbType) (cbp : Cbp) (dq : Option Int) (mv : Option Mv) (addl : Option (Mv × Mv × Mv)) : Out Loop := do
-  let qi : Int := (l.quant : Int) + dq.getD 0
-  if qi < -128 ∨ qi > 127 then .panic "attempt to add with overflow (i8 quantizer)" else
-  let q : Nat := if qi < 1 then 1 else if qi > 31 then 31 else qi.toNat
+  let q ← updateQuant l.quant dq
   let n := l.types.size
   let pos : Nat × Nat := ((n % mbPerLine) * 16, (n / mbPerLine) * 16)
   let mvs ← (if t.isInter then do
